@@ -296,6 +296,8 @@ class LinCtx:
                 val[i] = inputs[i]
             elif isinstance(k, tuple) and k[0] == "prod":
                 val[i] = sum((c * val[v] for v, c in k[1].t.items()), k[1].c) * sum((c * val[v] for v, c in k[2].t.items()), k[2].c)
+            elif isinstance(k, tuple) and k[0] == "ind":
+                val[i] = int(sum((c * val[v] for v, c in k[1].t.items()), k[1].c) != 0)
             elif i in quot:
                 r, bits = quot[i]
                 a = r.c + sum(c * val[v] for v, c in r.t.items() if v != i)
@@ -342,7 +344,7 @@ class LinCtx:
                     continue
             if env is None and direct:
                 # either a variable kind the evaluator does not know (then: the solver evaluates the encoding) or a point outside the domain
-                direct = all(k == "in" or (isinstance(k, tuple) and k[0] == "prod") or k == "quot" for k in self.kind.values()) and \
+                direct = all(k == "in" or (isinstance(k, tuple) and k[0] in ("prod", "ind")) or k == "quot" for k in self.kind.values()) and \
                     len([1 for k in self.kind.values() if k == "quot"]) == len([1 for (r, q) in self.wraps.values() if len(q.t) == 1])
                 if direct:
                     continue
